@@ -106,7 +106,7 @@ def r20_6(ctx: Ctx, e, dens: str, dparam):
                 gotn = bound.get('numberOfFloatVariables')
                 gotd = bound.get(dparam) if dparam else None
                 okn = selfv is not None and gotn is not None and \
-                    C.same_mod_ver(gotn, attr(selfv, 'numberOfFloatVariables'))
+                    C.same_mod_ver(gotn, attr(selfv, e.dim_field))
                 okd = selfv is not None and gotd is not None and C.same_mod_ver(gotd, attr(selfv, dens))
                 ctx.check(okn and okd, rid, f.short, f.loc(ne.node),
                           'the inner evolvent has the dimension and density of the outer one',
@@ -190,6 +190,10 @@ def check(ctx: Ctx):
     # the object that generates the trial points works with the solver's own evolvent
     ctx.rule('R20.5', 'the Method (and Process) of a Solver hold the Evolvent the Solver constructed with '
                       'parameters.evolventDensity - never one that came from elsewhere (a restored / shared object)')
+    # decided on the whole library: a state-restoring entry point that swaps a saved Method / Process in brings the
+    # evolvent (and density) that object was saved with
+    _ctx_search = ctx
+    ctx = ctx.full_view()
     pta = ctx.pta
     solver = ctx.ix.cls('Solver')
     so = pta.inst_ext(solver)
@@ -223,6 +227,7 @@ def check(ctx: Ctx):
                       f'parameters.evolventDensity ({[x.describe() for x in foreign[:2]]}): trial points are then '
                       f'generated on a grid of another density', key=f'R20.5::Solver.{holder_field}::foreign-evolvent')
     ctx.floor('R20.5', 'holders of the evolvent in a Solver', n5, 2)
+    ctx = _ctx_search
     # every trial point is an evolvent image (of the solver's evolvent): a trial built from anything else is not
     # on the grid whatever the density
     ctx.rule('R20.4', 'every search item the library constructs is Item(Point(GetImage(t)), t) (= R06.5), re-run here')
